@@ -218,6 +218,9 @@ def job(args):
     return q, mode, k, "survived", what, ""
 
 
+_BASE = {}
+
+
 def cross_job(args):
     """a survivor of its own property's rules: does ANY check (all rules, inherited ones included) report it?"""
     q, rel, lineno, name, mode, k, pid = args
@@ -229,7 +232,9 @@ def cross_job(args):
         return q, mode, k, pid, "skipped"
     try:
         mod = prop_module(pid)
-        base = R.evaluate(pid, "quick", mod.SPECS, Ctx(ROOT), R.load_known())
+        if pid not in _BASE:
+            _BASE[pid] = R.evaluate(pid, "quick", mod.SPECS, Ctx(ROOT), R.load_known())
+        base = _BASE[pid]
         out = R.evaluate(pid, "quick", mod.SPECS, Ctx(ROOT, overlay={rel: r[0]}), R.load_known())
         b = {(i.rule, i.key) for i in base.violations}
         nv = [i for i in out.violations if (i.rule, i.key) not in b]
@@ -253,8 +258,9 @@ def cross(infile, modes):
         f = M.funcs[q]
         for pid in ALL:
             jobs.append((q, M.mods[f.mod].rel, f.node.lineno, f.node.name, mode, k, pid))
+    jobs.sort(key=lambda j: j[6])
     with ProcessPoolExecutor(max_workers=16) as ex:
-        out = list(ex.map(cross_job, jobs, chunksize=4))
+        out = list(ex.map(cross_job, jobs, chunksize=24))
     by = {}
     for q, mode, k, pid, st in out:
         by.setdefault((q, mode, k), {})[pid] = st
